@@ -607,11 +607,12 @@ class Solver:
             up_dic = {}
             for lower_st in st.solver.structures:
                 up_dic[lower_st] = {}
+                shielded = set(lower_st.param_mapping.values())
                 for top, middle in st.param_mapping.items():
                     if middle in lower_st.param_mapping:
                         bottom = lower_st.param_mapping.pop(middle)
                         up_dic[lower_st][top] = bottom
-                    elif top not in lower_st.param_mapping:
+                    elif top not in lower_st.param_mapping and middle not in shielded:
                         up_dic[lower_st][top] = middle
             for lower_st in st.solver.structures:
                 lower_st.param_mapping.update(up_dic[lower_st])
